@@ -210,3 +210,436 @@ def run(repo, rep, tier):
                         'image of the other one (edge test %s -> %s, '
                         'neighbour %s, adjust by 1)'
                         % (which, sp['edge'], sp['limit'], sp['rec']))
+    _r5_sizes(repo, rep, cls)
+    _r6_tables(repo, rep, cls)
+
+
+# ---------------------------------------------------------------------------
+# R5: symbolic list lengths through the Values / ValueMap reconciliation
+# ---------------------------------------------------------------------------
+class _Lin(dict):
+    """linear form over symbols: {symbol: coefficient, '1': constant}"""
+
+    def add(self, other, k=1):
+        r = _Lin(self)
+        for s, c in other.items():
+            r[s] = r.get(s, 0) + k * c
+            if r[s] == 0:
+                del r[s]
+        return r
+
+    def show(self):
+        if not self:
+            return '0'
+        out = []
+        for s in sorted(self):
+            c = self[s]
+            t = str(c) if s == '1' else ('%s' % s if c == 1 else
+                                          '%d*%s' % (c, s))
+            out.append(t)
+        return ' + '.join(out).replace('+ -', '- ')
+
+
+def _r5_sizes(repo, rep, cls):
+    r5 = rep.rule('C20.R5', 'Values / ValueMap size reconciliation makes the '
+                  'two lists equally long')
+    f = cls.methods['_create_for_element']
+    r5.functions.add(f.fq)
+    body = f.body
+    # the consuming loop: for i, x in enumerate(A): ... B[i]
+    loop = None
+    for st in body:
+        if isinstance(st, ast.For) and isinstance(st.iter, ast.Call) and \
+                dotted(st.iter.func) == 'enumerate' and \
+                isinstance(st.target, ast.Tuple) and \
+                isinstance(st.target.elts[0], ast.Name):
+            idx = st.target.elts[0].id
+            subs = {norm(n.value) for n in ast.walk(st)
+                    if isinstance(n, ast.Subscript) and
+                    isinstance(n.slice, ast.Name) and n.slice.id == idx}
+            if subs:
+                loop = (st, norm(st.iter.args[0]), sorted(subs))
+                break
+    if loop is None:
+        raise AnalysisError('_create_for_element: the loop that indexes '
+                            'Values by the ValueMap position vanished')
+    loop_st, driver, indexed = loop
+    lists = [driver] + indexed
+    length = {}          # list name -> _Lin
+    sizevar = {}         # name -> _Lin (a frozen len() reading)
+
+    def ev(e, cond):
+        """_Lin of an integer expression, or None"""
+        if isinstance(e, ast.Constant) and isinstance(e.value, int):
+            return _Lin({'1': e.value}) if e.value else _Lin()
+        if isinstance(e, ast.Name) and e.id in sizevar:
+            return sizevar[e.id]
+        if isinstance(e, ast.Call) and dotted(e.func) == 'len' and e.args:
+            a = e.args[0]
+            if norm(a) in length:
+                return length[norm(a)]
+            ln = seqlen(a, cond)
+            return ln
+        if isinstance(e, ast.BinOp) and isinstance(e.op, (ast.Add, ast.Sub)):
+            le, ri = ev(e.left, cond), ev(e.right, cond)
+            if le is None or ri is None:
+                return None
+            return le.add(ri, 1 if isinstance(e.op, ast.Add) else -1)
+        return None
+
+    def nonneg(d, cond):
+        """d >= 0 provable?  every symbol is a list length (>= 0); the
+        branch condition contributes lhs - rhs >= 1"""
+        if all(c >= 0 for c in d.values()):
+            return True
+        if cond is None:
+            return False
+        gap = cond[0].add(cond[1], -1)       # >= 1
+        for k in (1, 2, 3):
+            rest = d.add(gap, -k)
+            if all(c >= 0 for s_, c in rest.items() if s_ != '1') and \
+                    rest.get('1', 0) >= -k:
+                return True
+        return False
+
+    def seqlen(e, cond):
+        """_Lin length of a list-valued expression, or None"""
+        if norm(e) in length:
+            return length[norm(e)]
+        if isinstance(e, ast.Subscript) and isinstance(e.slice, ast.Slice) \
+                and e.slice.step is None:
+            base = seqlen(e.value, cond)
+            if base is None:
+                return None
+            lo, hi = e.slice.lower, e.slice.upper
+            if lo is not None and hi is None:
+                k = ev(lo, cond)
+                if k is None:
+                    return None
+                d = base.add(k, -1)
+                return d if nonneg(d, cond) else None
+            if lo is None and hi is not None:
+                k = ev(hi, cond)
+                if k is None:
+                    return None
+                return k if nonneg(base.add(k, -1), cond) else None
+            return None
+        if isinstance(e, ast.BinOp) and isinstance(e.op, ast.Mult):
+            for lst, n in ((e.left, e.right), (e.right, e.left)):
+                if isinstance(lst, ast.List) and len(lst.elts) == 1:
+                    return ev(n, cond)
+        if isinstance(e, ast.List):
+            return _Lin({'1': len(e.elts)}) if e.elts else _Lin()
+        if isinstance(e, ast.Call) and dotted(e.func) == 'list' and \
+                len(e.args) == 1:
+            return seqlen(e.args[0], cond)
+        return None
+
+    undecided = []
+    local = {}
+
+    def step(st, cond):
+        """interpret one statement; return False when the path ends"""
+        if isinstance(st, ast.Raise):
+            return False
+        if isinstance(st, ast.Assign) and len(st.targets) == 1 and \
+                isinstance(st.targets[0], ast.Name):
+            t = st.targets[0].id
+            v = ev(st.value, cond) if not isinstance(
+                st.value, (ast.Subscript, ast.List, ast.BinOp)) else None
+            if isinstance(st.value, ast.Call) and \
+                    dotted(st.value.func) == 'len':
+                v = ev(st.value, cond)
+                if v is not None:
+                    sizevar[t] = v
+                return True
+            ln = seqlen(st.value, cond)
+            if ln is not None:
+                length[t] = ln
+            elif t in lists and cond is None:
+                # initial definition: a fresh symbol for its length
+                length[t] = _Lin({'|%s|' % t: 1})
+            elif t in length:
+                undecided.append(norm(st))
+                del length[t]
+            return True
+        if isinstance(st, ast.Expr) and isinstance(st.value, ast.Call) and \
+                isinstance(st.value.func, ast.Attribute):
+            recv = norm(st.value.func.value)
+            if recv in length:
+                m = st.value.func.attr
+                a = st.value.args
+                if m == 'extend' and a:
+                    n = seqlen(a[0], cond)
+                    if n is not None:
+                        length[recv] = length[recv].add(n)
+                        return True
+                if m == 'append':
+                    length[recv] = length[recv].add(_Lin({'1': 1}))
+                    return True
+                undecided.append(norm(st))
+                del length[recv]
+            return True
+        if isinstance(st, ast.AugAssign) and norm(st.target) in length and \
+                isinstance(st.op, ast.Add):
+            n = seqlen(st.value, cond)
+            if n is None:
+                undecided.append(norm(st))
+                del length[norm(st.target)]
+            else:
+                length[norm(st.target)] = length[norm(st.target)].add(n)
+            return True
+        if isinstance(st, ast.Delete):
+            for t in st.targets:
+                if isinstance(t, ast.Subscript) and norm(t.value) in length:
+                    recv = norm(t.value)
+                    sl = t.slice
+                    k = None
+                    if isinstance(sl, ast.Slice) and sl.upper is None and \
+                            sl.step is None and sl.lower is not None:
+                        k = ev(sl.lower, cond)
+                    if k is None:
+                        undecided.append(norm(st))
+                        del length[recv]
+                    else:
+                        # del x[k:] leaves min(k, len(x)) items
+                        length[recv] = k if nonneg(
+                            length[recv].add(k, -1), cond) else length[recv]
+                        local['del'] = (st, k)
+            return True
+        if isinstance(st, ast.If):
+            # nested if inside a reconciliation branch: raise-only bodies end
+            # the path, anything else is interpreted on the fall-through
+            alive = True
+            for s in st.body:
+                if not step(s, cond):
+                    alive = False
+                    break
+            if alive and st.body:
+                pass
+            for s in st.orelse:
+                step(s, cond)
+            return True
+        return True
+
+    branches = 0
+    for st in body:
+        if st is loop_st:
+            break
+        if isinstance(st, ast.If) and isinstance(st.test, ast.Compare) and \
+                len(st.test.ops) == 1 and \
+                isinstance(st.test.ops[0], (ast.Gt, ast.Lt)) and \
+                all(l in length for l in lists):
+            a = ev(st.test.left, None)
+            b = ev(st.test.comparators[0], None)
+            if a is None or b is None:
+                step(st, None)
+                continue
+            cond = (a, b) if isinstance(st.test.ops[0], ast.Gt) else (b, a)
+            saved = {k: _Lin(v) for k, v in length.items()}
+            local.clear()
+            alive = True
+            for s in st.body:
+                if not step(s, cond):
+                    alive = False
+                    break
+            branches += 1
+            r5.sites += 1
+            if alive:
+                for b_ in indexed:
+                    if b_ not in length or driver not in length:
+                        r5.undecided.append(
+                            '%s: length of %s not tracked through %s'
+                            % (norm(st.test), b_, undecided[-1:] or '?'))
+                        continue
+                    d = length[b_].add(length[driver], -1)
+                    ok = nonneg(d, cond) and nonneg(
+                        _Lin().add(d, -1), cond)
+                    r5.ob(ok, norm(st.test),
+                          {'branch': norm(st.test),
+                           'len(%s)' % b_: length[b_].show(),
+                           'len(%s)' % driver: length[driver].show()})
+                    if not ok:
+                        site = local.get('del')
+                        rep.finding(
+                            r5, f.qualname,
+                            norm(site[0]) if site else norm(st.test),
+                            'length-mismatch', VM,
+                            (site[0] if site else st).lineno,
+                            'on the branch %s the list %s ends with %s items '
+                            'but %s has %s: the loop indexes %s by the '
+                            'position in %s (IndexError / wrong pairing '
+                            'unless the two happen to coincide)'
+                            % (norm(st.test), b_, length[b_].show(), driver,
+                               length[driver].show(), b_, driver))
+            # the branch is exclusive with the others and ends reconciled (or
+            # raised): continue from the state before it, with the lists
+            # equal on the fall-through by the obligation just checked
+            length.clear()
+            length.update(saved)
+        else:
+            step(st, None)
+    if branches < 2:
+        raise AnalysisError('_create_for_element: expected the two size '
+                            'reconciliation branches (ValueMap longer / '
+                            'Values longer), found %d' % branches)
+    r5.notes.append('lists: %s indexed by the position in %s; lengths are '
+                    'linear forms over the two initial sizes'
+                    % (indexed, driver))
+
+
+# ---------------------------------------------------------------------------
+# R6: forward and backward tables are written in pairs and all consulted
+# ---------------------------------------------------------------------------
+def _r6_tables(repo, rep, cls):
+    r6 = rep.rule('C20.R6', 'forward (binary->Values) and backward tables are '
+                  'written in pairs; the reader consults single values, then '
+                  'closed ranges, then the unclaimed marker')
+    f = cls.methods['_create_for_element']
+    r6.functions.add(f.fq)
+    fwd = ('_b2v_single_dict', '_b2v_range_tuple_list', '_b2v_unclaimed')
+    bwd = '_v2b_dict'
+
+    def writes(stmts):
+        w = []
+        for st in stmts:
+            for n in ast.walk(st):
+                if isinstance(n, ast.Assign):
+                    for t in n.targets:
+                        base = t.value if isinstance(t, ast.Subscript) else t
+                        if isinstance(base, ast.Attribute) and \
+                                base.attr in fwd + (bwd,):
+                            w.append((base.attr, n))
+                elif isinstance(n, ast.Call) and \
+                        isinstance(n.func, ast.Attribute) and \
+                        n.func.attr == 'append' and \
+                        isinstance(n.func.value, ast.Attribute) and \
+                        n.func.value.attr in fwd:
+                    w.append((n.func.value.attr, n))
+        return w
+
+    loop = [st for st in f.body if isinstance(st, ast.For)]
+    if not loop:
+        raise AnalysisError('_create_for_element: table-building loop '
+                            'vanished')
+
+    def leaves(stmts, acc):
+        """straight-line leaves of the if-tree in the loop body"""
+        ifs = [s for s in stmts if isinstance(s, ast.If)]
+        if not ifs:
+            acc.append(stmts)
+            return
+        pre = [s for s in stmts if not isinstance(s, ast.If)]
+        for i in ifs:
+            leaves(pre + i.body, acc)
+            leaves(pre + i.orelse, acc)
+
+    acc = []
+    leaves(loop[-1].body, acc)
+    seenf = set()
+    for leaf in acc:
+        w = writes(leaf)
+        fw = [x for x in w if x[0] in fwd]
+        bw = [x for x in w if x[0] == bwd]
+        if not w:
+            continue
+        r6.sites += 1
+        ok = len(fw) == 1 and len(bw) == 1
+        if ok:
+            seenf.add(fw[0][0])
+            # same Values string on both sides
+            fnode, bnode = fw[0][1], bw[0][1]
+            key = norm(bnode.targets[0].slice) if isinstance(
+                bnode.targets[0], ast.Subscript) else None
+            if fw[0][0] == '_b2v_single_dict':
+                fval = norm(fnode.value)
+                ok = key == fval and \
+                    norm(fnode.targets[0].slice) == norm(bnode.value)
+            elif fw[0][0] == '_b2v_unclaimed':
+                ok = key == norm(fnode.value) and \
+                    isinstance(bnode.value, ast.Constant) and \
+                    bnode.value.value is None
+            else:
+                tup = fnode.args[0] if isinstance(fnode, ast.Call) else None
+                ok = isinstance(tup, ast.Tuple) and len(tup.elts) == 3 and \
+                    norm(tup.elts[2]) == key and \
+                    isinstance(bnode.value, ast.Tuple) and \
+                    [norm(x) for x in tup.elts[:2]] == \
+                    [norm(x) for x in bnode.value.elts]
+        r6.ob(ok, 'leaf:%s' % (fw[0][0] if fw else '?'),
+              {'forward': [norm(x[1], 80) for x in fw],
+               'backward': [norm(x[1], 80) for x in bw]})
+        if not ok:
+            n0 = (fw or bw)[0][1]
+            rep.finding(r6, f.qualname, norm(n0, 80), 'unpaired-table-write',
+                        VM, n0.lineno,
+                        'a ValueMap entry is entered into the forward table '
+                        '%s and the backward table %s inconsistently (each '
+                        'entry needs exactly one write to each, with the same '
+                        'Values string and the same binary value/range)'
+                        % ([x[0] for x in fw], [x[0] for x in bw]))
+    if seenf != set(fwd):
+        raise AnalysisError('_create_for_element: not all three forward '
+                            'tables are written in the loop: %s'
+                            % sorted(seenf))
+    # reader
+    g = cls.methods['_tovalues_single']
+    r6.functions.add(g.fq)
+    order = []
+    for st in g.body:
+        for n in ast.walk(st):
+            if isinstance(n, ast.Attribute) and n.attr in fwd and \
+                    n.attr not in order:
+                order.append(n.attr)
+    r6.sites += 1
+    ok = order == list(fwd)
+    r6.ob(ok, 'reader-order', {'reader consults': order})
+    if not ok:
+        rep.finding(r6, g.qualname, ' -> '.join(order), 'reader-order', VM,
+                    g.node.lineno,
+                    'the lookup must try single values, then ranges, then '
+                    'the unclaimed marker, and must consult all three '
+                    'tables the builder fills; found: %s' % order)
+    # closed range test lo <= v <= hi on the tuple's first two items
+    r6.sites += 1
+    found = False
+    for n in ast.walk(g.node):
+        if isinstance(n, ast.For) and \
+                norm(n.iter).endswith('_b2v_range_tuple_list'):
+            names = None
+            for s in n.body:
+                if isinstance(s, ast.Assign) and \
+                        isinstance(s.targets[0], ast.Tuple) and \
+                        len(s.targets[0].elts) == 3:
+                    names = [norm(x) for x in s.targets[0].elts]
+            if isinstance(n.target, ast.Tuple) and len(n.target.elts) == 3:
+                names = [norm(x) for x in n.target.elts]
+            for c in ast.walk(n):
+                if isinstance(c, ast.Compare) and names:
+                    found = True
+                    val = g.params[1] if len(g.params) > 1 else None
+                    form1 = len(c.ops) == 2 and \
+                        all(isinstance(o, ast.LtE) for o in c.ops) and \
+                        norm(c.left) == names[0] and \
+                        norm(c.comparators[0]) == val and \
+                        norm(c.comparators[1]) == names[1]
+                    form2 = len(c.ops) == 2 and \
+                        all(isinstance(o, ast.GtE) for o in c.ops) and \
+                        norm(c.left) == names[1] and \
+                        norm(c.comparators[0]) == val and \
+                        norm(c.comparators[1]) == names[0]
+                    ok = form1 or form2
+                    r6.ob(ok, 'range-test', {'range test': norm(c)})
+                    if not ok:
+                        rep.finding(
+                            r6, g.qualname, norm(c), 'range-test', VM,
+                            c.lineno, 'ranges built by _values_tuple are '
+                            'closed on both ends (lo..hi inclusive; the '
+                            'neighbour of an open range is hi+1 / lo-1): the '
+                            'membership test must be %s <= value <= %s'
+                            % (names[0], names[1]))
+                    break
+    if not found:
+        r6.undecided.append('range membership test not in the recognised '
+                            'form (for ... in _b2v_range_tuple_list with a '
+                            'comparison)')
